@@ -38,7 +38,7 @@ func (r *Rand) Float64() float64 { return float64(r.Uint64()>>11) / (1 << 53) }
 var NumPool = []string{"0", "-0", "1", "-1", "10", "123", "0.5", "-0.5", "1e5", "1E5", "1e+5", "1e-5", "1.5e300", "1e308", "1e309", "-1e309", "1.7976931348623157e308", "1.7976931348623159e308",
 	"4.9e-324", "2e-324", "1e-400", "0e999999", "0.0", "0.000", "123456789012345678901234567890", "9007199254740993", "2147483647", "2147483648", "-2147483648", "-2147483649", "4294967295", "4294967296",
 	"9223372036854775807", "9223372036854775808", "-9223372036854775808", "-9223372036854775809", "18446744073709551615", "18446744073709551616", "999999999999999999", "1000000000000000000", "9999999999999999999", "99999999999999999999",
-	"2.2250738585072011e-308", "2.2250738585072014e-308", "1e23", "8.5e22", "1e22", "1e-22", "123456789e-5", "0.1", "0.3", "3.14159", "6.02214076e23"}
+	"18446744073709551620", "18446744073709551629", "-18446744073709551620", "184467440737095516200", "9223372036854775809", "-9223372036854775810", "2.2250738585072011e-308", "2.2250738585072014e-308", "1e23", "8.5e22", "1e22", "1e-22", "123456789e-5", "0.1", "0.3", "3.14159", "6.02214076e23"}
 var BadNum = []string{"01", "-", "1.", ".5", "1e", "1e+", "-01", "+1", "1.e5", "0x10", "1.5.3", "--1", "1ee5", "00", "-0.", "0e", "1E-", "-.5", "1e1.5", "Infinity", "NaN", "-Infinity"}
 var StrPool = []string{`""`, `"a"`, `"abc def"`, `"\n"`, `"\""`, `"\\"`, `"\/"`, `"\b\f\n\r\t"`, `"\u0041"`, `"\u00e9"`, `"\ud83d\ude00"`, `"\ud800"`, `"\udc00"`, `"\ud800\ud800"`, `"\ud800\u0041"`, `"\ud800x"`, `"\uDBFF\uDFFF"`,
 	"\"\xff\"", "\"\xc3\"", "\"\xe2\x82\"", "\"\xc3\xa9\"", "\"\xf0\x9f\x98\x80\"", "\"\xed\xa0\x80\"", `"[{]}"`, `"a\"]"`, `"\\\\"`, `"\\"]`, "\"\x7f\"", `"\u0000"`, `"\uffff"`, `"\uFFFE"`, `"\ufffd"`,
